@@ -580,3 +580,61 @@ func TestVerifScenario_C19_RenameTwiceBusyConsumer(t *testing.T) {
 		}
 	}
 }
+
+// (demonstration of seeded change C01j, kept as a regression scenario: the change moves the decode loop into a new
+// function, which leaves the loop contract of readEvents without its loop)
+// A slow consumer lets a few thousand name-less events (writes to two watched
+// files) pile up in the kernel queue, so that one read() fills the 64K buffer
+// exactly. Every write must still be reported.
+func TestVerifScenario_C01_FullBufferBatch(t *testing.T) {
+	tmp := t.TempDir()
+	var fp [2]*os.File
+	w, err := NewWatcher()
+	if err != nil {
+		t.Fatal(err)
+	}
+	defer w.Close()
+	for i, n := range []string{"a", "b"} {
+		p := filepath.Join(tmp, n)
+		f, err := os.OpenFile(p, os.O_CREATE|os.O_WRONLY|os.O_APPEND, 0o644)
+		if err != nil {
+			t.Fatal(err)
+		}
+		defer f.Close()
+		fp[i] = f
+		if err := w.Add(p); err != nil {
+			t.Fatal(err)
+		}
+	}
+
+	// Alternate between the files so the kernel can't coalesce the events.
+	const writes = 6000
+	for i := 0; i < writes; i++ {
+		if _, err := fp[i%2].Write([]byte("x")); err != nil {
+			t.Fatal(err)
+		}
+		if i == 0 { // Reader picks this one up and blocks delivering it.
+			time.Sleep(200 * time.Millisecond)
+		}
+	}
+
+	got := 0
+	quiet := time.NewTimer(time.Second)
+loop:
+	for {
+		select {
+		case ev := <-w.Events:
+			if ev.Has(Write) {
+				got++
+			}
+			quiet.Reset(time.Second)
+		case err := <-w.Errors:
+			t.Fatal(err) // an overflow would excuse the loss; there is none
+		case <-quiet.C:
+			break loop
+		}
+	}
+	if got != writes {
+		t.Errorf("got %d Write events for %d writes (%d lost, no ErrEventOverflow)", got, writes, writes-got)
+	}
+}
